@@ -60,7 +60,7 @@ class Ctx:
             # the rejection clauses (C10) are not repeated here
             if clause.startswith("raises:") or "compatible" in clause or "rejects" in clause:
                 return
-            props = ["C04"]
+            props = ["C04"] + (["C16"] if "C16" in props else [])
         s = st.fork()
         if callable(goal):
             goal = goal(s)
@@ -157,6 +157,7 @@ def frame_goal(st, pre, skip_oids=(), only_oids=None, allow_fields=BENIGN_FIELDS
         else:
             gs.append(content_eq(st, comp_of(pre, VObj(oid)), comp_of(st, VObj(oid)), "frame.obj"))
             gs.append(same_slots(st, pre, VObj(oid)))
+    gs += globals_unchanged(st, pre)
     if views:
         r0 = z3.Const(f"anyref!{core.uid()}", core.Ref)
         st.add_index(r0)
@@ -165,6 +166,27 @@ def frame_goal(st, pre, skip_oids=(), only_oids=None, allow_fields=BENIGN_FIELDS
             g = z3.And(g, view_guard(r0))
         gs.append(z3.Implies(g, st.views.lookup(r0) == pre.views.lookup(r0)))
     return z3.And(gs) if gs else z3.BoolVal(True)
+
+
+def globals_unchanged(st, pre):
+    """Module-level function objects of histogrammar.defs (identity, unweighted, square: the default
+    quantities / transforms every aggregator shares) that were first touched during the call still have
+    their initial content; the ones touched before entry are entry-heap objects and are compared there."""
+    gs = []
+    reg = st.heap.get("__globals__", {})
+    for name, oid in reg.items():
+        if not isinstance(name, str) or oid in pre.heap:
+            continue
+        o = st.heap.get(oid)
+        ok = isinstance(o, Inst) and o.cls == "UserFcn" and set(o.fields) == {"expr", "name"}
+        if not ok:
+            gs.append(z3.BoolVal(False))
+            continue
+        e, n = o.fields["expr"], o.fields["name"]
+        if not (isinstance(e, VOpq) and e.tag == "function" and z3.eq(e.t, z3.Const("fn:" + name, core.Opq))):
+            gs.append(z3.BoolVal(False))
+        gs.append(content_eq(st, comp_of(st, n), SV.CStr(core.strlit(name)), "frame.global." + name))
+    return gs
 
 
 def same_slots(st, pre, objv):
@@ -261,6 +283,44 @@ def wf_goal(st, K, resv):
     return z3.And(gs)
 
 
+TEMPLATE_CLASSES = ("SparselyBin", "CentrallyBin", "Categorize")
+
+
+def template_goal(st, K, resv):
+    """C16: the unfilled template (`value`) that Container._checkForCrossReferences skips is not installed at
+    any fillable slot of the same node (otherwise that slot, and everything below it, is never walked)."""
+    if not isinstance(resv, VObj) or not isinstance(st.obj(resv), Inst):
+        return z3.BoolVal(False)
+    o = st.obj(resv)
+    tv = o.fields.get("value")
+    if tv is None or isinstance(tv, VNone):
+        return z3.BoolVal(True)
+    if not isinstance(tv, VChild):
+        return z3.BoolVal(False)
+    gs = []
+    for f, kind in specs.CHILDREN.get(K, {}).items():
+        fv = o.fields.get(f)
+        if kind == "one":
+            gs.append(fv.ref != tv.ref if isinstance(fv, VChild) else z3.BoolVal(False))
+            continue
+        if not isinstance(fv, VObj):
+            return z3.BoolVal(False)
+        c = comp_of(st, fv)
+        k = z3.Const(f"tpl!{core.uid()}", c.ksort)
+
+        def distinct(comp, kind=kind):
+            if isinstance(comp, SV.CIte):
+                return z3.If(comp.c, distinct(comp.a), distinct(comp.b))
+            if kind == "pairs" and isinstance(comp, CTuple) and len(comp.items) == 2:
+                comp = comp.items[1]
+            if isinstance(comp, CChild) and comp.ref is not None:
+                return comp.ref != tv.ref
+            return z3.BoolVal(False)
+
+        gs.append(st.forall(k, c.dom(k), distinct(c.val(k)), equiv=True, name="tpl." + f))
+    return z3.And(gs) if gs else z3.BoolVal(True)
+
+
 def quantity_same(st, pre, a_v, b_v):
     """the two instances carry the same quantity object content"""
     oa, ob = pre.obj(a_v), st.obj(b_v)
@@ -323,6 +383,8 @@ def ob_zero(P, K, hooks=None, mode="live"):
         cx.emit(["C06"], "ensures:fresh", p, s, lambda s2: fresh_goal(s2, K, r.v))
         cx.emit(["C06"], "ensures:frame", p, s, lambda s2: frame_goal(s2, pre))
         cx.emit(["C01", "C08", "C04"], "ensures:wf", p, s, lambda s2: wf_goal(s2, K, r.v))
+        if K in TEMPLATE_CLASSES:
+            cx.emit(["C16"], "ensures:template-not-a-fill-slot", p, s, lambda s2: template_goal(s2, K, r.v))
         if isinstance(r.v, VObj):
             cx.emit(["C01"], "ensures:view", p, s, lambda s2: eq_views(s2, K, view_of(s2, r.v, K), specs.zero(K, s2, a)))
             cx.emit(["C04", "C01"], "ensures:quantity", p, s, lambda s2: quantity_same(s2, pre, selfv, r.v))
@@ -358,6 +420,8 @@ def ob_add(P, K, hooks=None, mode="live"):
             cx.emit(["C06"], "ensures:fresh", p, s, lambda s2: fresh_goal(s2, K, r.v))
             cx.emit(["C06"], "ensures:frame", p, s, lambda s2: frame_goal(s2, pre))
             cx.emit(["C01", "C08", "C04"], "ensures:wf", p, s, lambda s2: wf_goal(s2, K, r.v))
+            if K in TEMPLATE_CLASSES:
+                cx.emit(["C16"], "ensures:template-not-a-fill-slot", p, s, lambda s2: template_goal(s2, K, r.v))
             if isinstance(r.v, VObj):
                 cx.emit(["C01"], "ensures:view", p, s, lambda s2: plus_goal(s2, K, a, b, view_of(s2, r.v, K)))
                 cx.emit(["C04", "C01"], "ensures:quantity", p, s, lambda s2: quantity_same(s2, pre, selfv, r.v))
@@ -438,6 +502,8 @@ def ob_iadd(P, K, hooks=None, mode="live"):
             cx.emit(["C07"], "ensures:same-object", p, s, z3.BoolVal(isinstance(r.v, VObj) and r.v.oid == selfv.oid))
             cx.emit(["C07"], "ensures:view", p, s, lambda s2: plus_goal(s2, K, a, b, view_of(s2, selfv, K)))
             cx.emit(["C07"], "ensures:wf", p, s, lambda s2: wf_goal(s2, K, selfv))
+            if K in TEMPLATE_CLASSES:
+                cx.emit(["C16"], "ensures:template-not-a-fill-slot", p, s, lambda s2: template_goal(s2, K, selfv))
             if variant != "alias":
                 oids = footprint_oids(pre, other)
                 cx.emit(
@@ -525,6 +591,8 @@ def ob_mul(P, K, method="__mul__", hooks=None, mode="live"):
         cx.emit(["C06"], "ensures:fresh", p, s, lambda s2: fresh_goal(s2, K, r.v))
         cx.emit(["C06"], "ensures:frame", p, s, lambda s2: frame_goal(s2, pre))
         cx.emit(["C08"], "ensures:wf", p, s, lambda s2: wf_goal(s2, K, r.v))
+        if K in TEMPLATE_CLASSES:
+            cx.emit(["C16"], "ensures:template-not-a-fill-slot", p, s, lambda s2: template_goal(s2, K, r.v))
         if isinstance(r.v, VObj):
 
             def g(s2):
@@ -575,6 +643,8 @@ def ob_fill(P, K, hooks=None, mode="live", rollback=False):
             continue
         cx.emit(["C02", "C01"], "ensures:view", p, s, lambda s2: z3.Implies(w.ispos(), fillspec.fill_post(s2, K, pre, selfv, a, view_of(s2, selfv, K), d, w)))
         cx.emit(["C02"], "ensures:wf", p, s, lambda s2: wf_goal(s2, K, selfv))
+        if K in TEMPLATE_CLASSES:
+            cx.emit(["C16"], "ensures:template-not-a-fill-slot", p, s, lambda s2: template_goal(s2, K, selfv))
         cx.emit(
             ["C06", "C02"],
             "ensures:frame",
